@@ -909,4 +909,84 @@ theorem syncs_of_fixed {y : Pair} {now na : Int} (h : ∀ f, y.sync now na f = y
     show (y.sync now na f).syncs now na fs = y
     rw [h f]; exact ih
 
+/-! ## A change of the child's entitlement at the parent -/
+
+/-- `ChildUpdateResources` at the parent: only the child's entitlement changes. -/
+theorem childUpdateResources_spec {s : Sys} (hr : Reachable s) (ch : Handle) (res : ResSet) :
+    Reachable (s.next (.childUpdateResources ch res)) ∧
+    (s.next (.childUpdateResources ch res)).ca.classes = s.ca.classes ∧
+    ((get (s.next (.childUpdateResources ch res)).ca.children ch = get s.ca.children ch) ∨
+     ∃ c, get s.ca.children ch = some c ∧
+       get (s.next (.childUpdateResources ch res)).ca.children ch = some { c with res := res }) := by
+  refine ⟨Reachable.step _ hr, ?_⟩
+  unfold Sys.next
+  cases hex : s.exec (.childUpdateResources ch res) with
+  | refused e => exact ⟨rfl, Or.inl rfl⟩
+  | panic => exact ⟨rfl, Or.inl rfl⟩
+  | listenerError e => exact ⟨rfl, Or.inl rfl⟩
+  | stored evs s' =>
+    simp only
+    obtain ⟨hp, hrun⟩ := exec_stored_iff.mp hex
+    obtain ⟨ca', o'⟩ := s'
+    have happ := (runEvs_some_iff.mp hrun).1
+    simp only [Ca.process] at hp
+    split at hp
+    · cases hp
+    · cases hc : get s.ca.children ch with
+      | none => rw [hc] at hp; cases hp
+      | some c =>
+        rw [hc] at hp
+        simp only at hp
+        split at hp
+        · simp only [Except.ok.injEq] at hp; subst hp
+          simp only [Ca.applyAll, Option.some.injEq] at happ; subst happ
+          exact ⟨rfl, Or.inl hc⟩
+        · simp only [Except.ok.injEq] at hp; subst hp
+          simp only [Ca.applyAll, Ca.apply, Ca.withChild, hc, Option.bind_some, Option.some.injEq] at happ
+          subst happ
+          exact ⟨rfl, Or.inr ⟨c, rfl, get_set_self _ _ _⟩⟩
+
+/-- From a converged pair, a change of the child's entitlement at the parent keeps the coupling:
+the hypotheses of the convergence theorems hold again. -/
+theorem Conv.coupled_after_resources_change {x : Pair} {now na : Int} (h : Conv x now na) (res : ResSet) :
+    Coupled { x with parent := x.parent.next (.childUpdateResources x.ch res) } := by
+  have hc := h.coupled
+  obtain ⟨hr', hcls, hchild⟩ := childUpdateResources_spec hc.inv.rp x.ch res
+  refine ⟨⟨hr', hc.inv.rc, hc.inv.repo, hc.inv.nolim⟩, ?_, hc.uniq, hc.noroll, ?_⟩
+  · -- the class names still translate back
+    show (x.parent.next (.childUpdateResources x.ch res)).ca.namesOk x.ch = true
+    have hn := hc.names
+    unfold Ca.namesOk at hn ⊢
+    rw [hcls]
+    rcases hchild with h1 | ⟨c, h1, h2⟩
+    · rw [h1]; exact hn
+    · rw [h2]; rw [h1] at hn
+      simp only [List.all_eq_true, decide_eq_true_eq] at hn ⊢
+      intro q hq
+      have e1 : ({ c with res := res } : Child).nameForChild q = c.nameForChild q := nameForChild_congr rfl q
+      have e2 : ∀ n, ({ c with res := res } : Child).nameInParent n = c.nameInParent n := nameInParent_congr rfl
+      rw [e1, e2]; exact hn q hq
+  · -- certificates on file
+    intro r rc k R hg hp hk ha hse
+    obtain ⟨k0, R0, hk0, _, ho0, hw0⟩ := h.cls r rc hg hp
+    rw [hk] at hk0; cases hk0
+    have ha0 := offers_answer hc.names ho0
+    have hse0 : seteq k.cert.res R0 = true := seteq_symm (seteq_of_not_wantsUpdate hw0)
+    obtain ⟨cc, hcc, hres⟩ := hc.booked r rc k R0 hg hp hk ha0 hse0
+    refine ⟨cc, ?_, seteq_trans hres (seteq_trans (seteq_symm hse0) hse)⟩
+    show (x.parent.next (.childUpdateResources x.ch res)).ca.issuedFor x.ch rc.parentRcn k.id = some cc
+    rw [issuedFor_eq] at hcc ⊢
+    rcases hchild with h1 | ⟨c, h1, h2⟩
+    · rw [h1]; simp only [Ca.issuedIn, hcls]; exact hcc
+    · rw [h2]; rw [h1] at hcc
+      simp only [Ca.issuedIn, hcls] at hcc ⊢
+      exact hcc
+
+
+/-- … and the child still has nothing to send. -/
+theorem Conv.quiet {x : Pair} {now na : Int} (h : Conv x now na) : x.child.ca.hasPendingRequests x.ph = false := by
+  rw [hasPendingRequests_false_iff (reachable_inv h.coupled.inv.rc).core.nodup]
+  intro r rc hg hp
+  exact settled_not_pending (h.cls r rc hg hp)
+
 end KM.CaK
